@@ -47,7 +47,12 @@ def documents(draw):
     elems = []
     while budget[0] > 0:
         elems.append(element(0))
-    return {'pool': pool, 'elements': elems}
+    root = None
+    if draw(st.integers(0, 2)) == 0:
+        # attributes for the <svg> root: a viewBox, or the caller's own width / height (a drawing that scales with the page)
+        root = {k: draw(st.sampled_from(['100%', '0 0 800 600', '12cm', '1.2', 'none', 'xMidYMid meet']))
+                for k in draw(st.lists(st.sampled_from(['viewBox', 'width', 'height', 'preserveAspectRatio', 'version', 'id']), min_size=1, max_size=3, unique=True))}
+    return {'pool': pool, 'elements': elems, 'root': root}
 
 
 def _write(SVGWriter, Coord, xs, e, pool, after):
@@ -105,7 +110,8 @@ def check_svg_writer(case, cc):
             changed.append([dict(d) for d in pool])
     out = io.StringIO()
     try:
-        with SVGWriter.SVGWriter(out, Coord.Box(Coord.Dim(800, 'px'), Coord.Dim(600, 'px'))) as xs:
+        root_attrs = None if case.get('root') is None else dict(case['root'])
+        with SVGWriter.SVGWriter(out, Coord.Box(Coord.Dim(800, 'px'), Coord.Dim(600, 'px')), root_attrs) as xs:
             for e in case['elements']:
                 _write(SVGWriter, Coord, xs, e, pool, after)
     except Exception as err:  # noqa
@@ -121,6 +127,14 @@ def check_svg_writer(case, cc):
     except ET.ParseError as err:
         cc.dev('document-parses', 'svg-writer:unparseable', '%s\n%s' % (err, text[:400]))
         return
+    if case.get('root') is not None:
+        cc.cls('svg-writer:root-attributes-given', True)
+        if root_attrs != case['root']:
+            cc.dev('caller-arguments-unchanged', 'svg-writer:attribute-dictionary-modified', 'root attributes were %r, are %r' % (case['root'], root_attrs))
+        for k, v in case['root'].items():
+            if root.get(k) != v:
+                cc.dev('attributes-recovered', 'svg-writer:root-attribute', '<svg %s=%r> was asked for, the parser gives %r' % (k, v, root.get(k)))
+                break
     got = [el for el in root.iter() if el is not root]
     tags = {'rect': 'rect', 'circle': 'circle', 'ellipse': 'ellipse', 'line': 'line', 'polyline': 'polyline', 'polygon': 'polygon',
             'text': 'text', 'group': 'g'}
